@@ -8,6 +8,7 @@ package v2
 
 import (
 	"context"
+	"encoding/json"
 	"errors"
 	"fmt"
 	"io"
@@ -27,10 +28,18 @@ import (
 	"github.com/sirupsen/logrus"
 )
 
-// the node's DID document cannot be read (a database error): handlePrivateTxRetry fails recoverably, the private job stays
-type c14Resolver struct{}
+// mode "db": the node's DID document cannot be read (a database error): handlePrivateTxRetry fails recoverably, the
+// private job stays and is retried. mode "err": any other error: fatal. mode "nokeys": the document has no key agreement
+// keys, the PAL cannot be decrypted: not meant for this node, done.
+type c14Resolver struct{ mode string }
 
-func (c14Resolver) Resolve(id did.DID, _ *resolver.ResolveMetadata) (*did.Document, *resolver.DocumentMetadata, error) {
+func (r c14Resolver) Resolve(id did.DID, _ *resolver.ResolveMetadata) (*did.Document, *resolver.DocumentMetadata, error) {
+	switch r.mode {
+	case "err":
+		return nil, nil, errors.New("c14: document is broken")
+	case "nokeys":
+		return &did.Document{ID: id}, &resolver.DocumentMetadata{}, nil
+	}
 	return nil, nil, stoabs.DatabaseError(errors.New("c14: store unavailable"))
 }
 
@@ -41,6 +50,10 @@ type c14Node struct {
 }
 
 func c14Open(t *testing.T, path string, calls *[]string, mu *sync.Mutex) *c14Node {
+	return c14OpenMode(t, path, calls, mu, "db", time.Hour)
+}
+
+func c14OpenMode(t *testing.T, path string, calls *[]string, mu *sync.Mutex, mode string, retryDelay time.Duration) *c14Node {
 	db, err := bbolt.CreateBBoltStore(path, stoabs.WithNoSync())
 	if err != nil {
 		t.Fatal(err)
@@ -50,8 +63,8 @@ func c14Open(t *testing.T, path string, calls *[]string, mu *sync.Mutex) *c14Nod
 		t.Fatal(err)
 	}
 	cfg := DefaultConfig()
-	cfg.PayloadRetryDelay = time.Hour // no retry timer fires during the test
-	p := New(cfg, did.MustParseDID("did:nuts:c14node"), state, c14Resolver{}, nil, nil, db).(*protocol)
+	cfg.PayloadRetryDelay = retryDelay // time.Hour: no retry timer fires during the test
+	p := New(cfg, did.MustParseDID("did:nuts:c14node"), state, c14Resolver{mode}, nil, nil, db).(*protocol)
 	if err := p.Configure("c14"); err != nil {
 		t.Fatal(err)
 	}
@@ -140,6 +153,58 @@ func TestVerifC14Handler(t *testing.T) {
 	snap("restart", runErr)
 	snap("payload-3", n.p.handleTransactionPayload(ctx, conn, msg(priv, payload)))
 	n.close()
+
+	// ---- how the REAL handlePrivateTxRetry (the "private" receiver registered by the real Configure) classifies:
+	//      database error -> retried; other error -> fatal (marked failed, shown by the protocol's diagnostics);
+	//      PAL not decryptable with our keys -> done; payload already there -> done
+	for mi, mode := range []string{"db", "err", "nokeys", "present"} {
+		mpath := filepath.Join(dir, fmt.Sprintf("mode%d.db", mi))
+		resolverMode := mode
+		if mode == "present" {
+			resolverMode = "db"
+		}
+		var mcalls []string
+		m := c14OpenMode(t, mpath, &mcalls, &mu, resolverMode, time.Nanosecond)
+		_ = m.state.Add(ctx, root, []byte{0, 0, 0, 1})
+		if mode == "present" {
+			// another transaction already brought the same payload
+			twin := dag.CreateSignedTestTransaction(2, time.Now(), nil, "application/vc+json", true, root)
+			_ = m.state.Add(ctx, twin, payload)
+		}
+		_ = m.state.Add(ctx, priv, nil)
+		time.Sleep(30 * time.Millisecond) // 1ns retry delay: a retried job runs through its attempts right away
+		retries := -1
+		_ = m.db.ReadShelf(ctx, "_private_jobs", func(r stoabs.Reader) error {
+			v, err := r.Get(stoabs.BytesKey(priv.Ref().Slice()))
+			if err == nil {
+				ev := struct {
+					Retries int `json:"retries"`
+				}{}
+				_ = json.Unmarshal(v, &ev)
+				retries = ev.Retries
+			}
+			return nil
+		})
+		dlq := -1
+		for _, d := range m.p.Diagnostics() {
+			if d.Name() == "payload_fetch_dlq" {
+				if l, ok := d.Result().([]dag.Event); ok {
+					dlq = len(l)
+				}
+			}
+		}
+		class := "done"
+		switch {
+		case retries == 21:
+			class = "fatal"
+		case retries >= 2:
+			class = "retried"
+		case retries >= 0:
+			class = "pending"
+		}
+		lines = append(lines, fmt.Sprintf("private-%s class=%s dlq=%d", mode, class, dlq))
+		m.close()
+	}
 	if err := os.WriteFile(filepath.Join(outDir, "handler.out"), []byte(strings.Join(lines, "\n")+"\n"), 0o644); err != nil {
 		t.Fatal(err)
 	}
